@@ -1,5 +1,7 @@
 #!/bin/bash
-# Builds every monitor binary variant once (warms the Go build cache). Offline.
+# Builds the monitor binary variants the checks use (warms the Go build cache). Offline.
+# debug: every check except the race-variant ones; race: C11 C15 C16 C25 C26.
+# The plain / asan variants are optional (VERIF_EXTRA_VARIANTS="plain asan" ./setup.sh); no check is decided by them.
 set -e
 cd /verif
 . ./env.sh
@@ -8,7 +10,10 @@ cd harness
 go build -tags verif,debug -o ../bin/elkverif-debug ./cmd/elkverif &
 go build -race -tags verif,debug -gcflags=all=-d=checkptr=0 -o ../bin/elkverif-race ./cmd/elkverif &
 wait
-go build -tags verif -o ../bin/elkverif-plain ./cmd/elkverif &
-go build -asan -tags verif -gcflags=all=-d=checkptr=0 -o ../bin/elkverif-asan ./cmd/elkverif &
-wait
+for v in ${VERIF_EXTRA_VARIANTS:-}; do
+  case "$v" in
+    plain) go build -tags verif -o ../bin/elkverif-plain ./cmd/elkverif ;;
+    asan)  go build -asan -tags verif -gcflags=all=-d=checkptr=0 -o ../bin/elkverif-asan ./cmd/elkverif ;;
+  esac
+done
 echo setup done
